@@ -86,6 +86,15 @@ T.update({
  'C20_c': dict(change='utils/utils.go DecomposeNAF guard: w > 7 became w >= 7', needs='w = 7: panic', strengthened='YES: a panic in the concrete validation section aborted the check and discarded earlier results; guarded_main now keeps what was established, the validation reports panics with a replay'),
 })
 
+T.update({
+ 'C05_d': dict(change='arm64: sm4/asm_arm64.s storeOutputX2 stores Z1.S[0] instead of Z1.S[1] for block 1', needs='arm64 two-block kernel with two different blocks', strengthened='no (arm64 seed: demonstration by a Go port; the arm64 code cannot run on this host)'),
+ 'C06_d': dict(change='arm64: sm4/sm4_gcm_arm64.go fillSingleBlock carries a counter overflow into bytes 8..11', needs='non-12-byte nonce whose J0 low word is within the block count of 2^32', strengthened='YES: the arm64 part of C06 had no counter-wrap nonces; the solved wrap nonces are now crossed with the arm64 glue as well'),
+ 'C07_d': dict(change='arm64: Open compares only the first 12 tag bytes', needs='forgery that alters tag bytes 12..tagSize-1', strengthened='no'),
+ 'C09_d': dict(change='arm64: Open compares the tag with an early-exit loop', needs='rejected message: iteration count depends on the first wrong tag byte', strengthened='no'),
+ 'C10_d': dict(change='arm64: cryptoBlocks 8-block arm writes the key stream into out before xoring (no tmp)', needs='in-place use and block count mod 16 in 8..15', strengthened='YES: the arm64 part of C10 stopped at 100 bytes; lengths 129, 200, 271 added'),
+ 'C11_d': dict(change='arm64: Seal writes the tag with xor16 directly into out (16-byte store)', needs='tag size 12..15: 1..4 bytes past the result', strengthened='no'),
+})
+
 for name, t in sorted(T.items()):
     d = os.path.join(S, name)
     if not os.path.isdir(d):
@@ -95,7 +104,7 @@ for name, t in sorted(T.items()):
     detected = any(l.startswith('VIOLATION') for l in res)
     key = next((l.strip() for l in res if l.strip().startswith('key=')), '')
     meta = dict(
-        seed=name, property=prop, origin='fresh sub-agent given only the property text and a scratch worktree of /repo',
+        seed=name, property=prop, origin='fresh sub-agent given only the property text and a scratch worktree of /repo' + (' (asked for a change in the arm64 implementation; demonstration by a Go port of the changed logic, since arm64 code cannot run on this host)' if name.endswith('_d') else ''),
         change=t['change'], needs_to_manifest=t['needs'],
         compiles=True, existing_suite_passes=True,
         confirmed_by_me='applied patch.diff in a scratch worktree: go build ./... and go test -vet=off -count=1 ./... pass; demo_test.go fails with the change and passes without it (C08/C09/C11: structural demonstration, see meta.txt)',
